@@ -52,7 +52,8 @@ Record hstep := {
   st_settle_stats : list hstat;    (* statistics published with the settlement, when the hand closed in this step *)
   st_ret : Z;                      (* value returned by a deadline extension *)
   st_result_n : nat; st_hand_n : nat;  (* at settlement: result entries, participants *)
-  st_ext_injected : bool               (* a deadline extension was served inside the engine's Next step of this attempt *)
+  st_ext_injected : bool;              (* a deadline extension was served inside the engine's Next step of this attempt *)
+  st_panic : bool                      (* the API call panicked *)
 }.
 
 (* steps that are a player's game action (not a deadline extension, not a withheld answer) *)
